@@ -335,7 +335,7 @@ def ofRaw (r : RawEv) : Option (Option Ev) :=
   let k := r.tid
   match r.kind, r.args with
   | "note", "spawn" :: _ => some (some .spawn)
-  | "note", ["tick"] => some (some .tick)
+  | "note", ["allidle"] => some (some .tick)
   | "note", _ => some none
   | "fcreate", [g] => g.toNat?.map (fun g => some (.create k g))
   | "fdestroy", [g] => g.toNat?.map (fun g => some (.destroy k g))
@@ -356,7 +356,7 @@ def ofRaw (r : RawEv) : Option (Option Ev) :=
   | _, _ => some none      -- everything else belongs to the primitives' own models
 
 /-! ### idle monitor (C02, second sentence): whenever every kernel thread has gone idle
-   (the runtime's `tick` note: all threads have polled and found nothing for several rounds)
+   (the runtime's `allidle` note: the last observable action of every kernel thread was a poll that found nothing, for several rounds)
    no runnable fiber remains queued anywhere -/
 
 def leftover (s : St) : Option String :=
